@@ -283,8 +283,18 @@ def r7(ctx, prog):
     ctx.check(R, len(st) == 1 and rl.var_of(g, st[0][1]) == sc, g.where(), "the kept part records exactly slice_count slices", key="C01.R7:split:keep")
     h = prog.fn("mi_segment_span_free_coalesce")
     cfg = h.cfg
-    adds = [a for d in [dd["d"] for _, dd in rl.local_decl(h, lambda dd: "init" in dd and rl.field_is(h, dd["init"], "slice_count"))]
-            for a, kind, opnd in h.var_updates(d) if kind == "add"]
+    adds = []
+    for d in [dd["d"] for _, dd in rl.local_decl(h, lambda dd: "init" in dd and rl.field_is(h, dd["init"], "slice_count"))]:
+        for a, kind, opnd in h.var_updates(d):
+            if kind != "add":
+                continue
+            # `count += r` with r a result variable (helper returning 0 or the neighbour's count): the merges are r's non-zero definitions
+            r_ = rl.var_of(h, opnd) if isinstance(opnd, int) and opnd != 1 else None
+            rdefs = [(x, rhs) for x, rhs, op in h.var_defs(r_) if rhs is not None and op in ("=", "decl")] if r_ is not None else []
+            if len(rdefs) > 1:
+                adds += [x for x, rhs in rdefs if h.cv(rhs) != 0]
+            else:
+                adds.append(a)
     ctx.check(R, len(adds) == 2, h.where(), "two merge sites (next neighbour, previous neighbour)", key="C01.R7:coalesce:sites")
     for a in adds:
         def nb_free(e, pol):
